@@ -1,4 +1,6 @@
 import Drpc.Lemmas.StreamSolo
+import Drpc.Lemmas.StreamProgress
+import Drpc.Lemmas.StreamInvStep
 /-
   C04 — Cancelling an RPC's context unblocks every operation of that RPC.
   Stream-level theorems about Cancel / SendCancel on the atomic-step model, and the reachable hung
@@ -112,5 +114,135 @@ theorem cancel_hang_counterexample (s : St) (d : Bytes) (fr : Frame) (rest : Lis
         solo
       rw [this, w2]
     simp [step, stepPC, q2, hw]
+
+/-! ## No internal deadlock (liveness as safety), for every reachable state of the atomic-step
+    model — any number of threads, any interleaving.  `Quiescent s`: no thread has an enabled step. -/
+
+theorem isDone_iff (p : PC) : isDone p = true ↔ ∃ r, p = .done r := by
+  cases p <;> simp
+
+/-- (A1) The exact list of places where a thread can be blocked: `step s t = none` iff the thread
+    has returned, or is parked in the ENVIRONMENT (`EnvParked`: transport write in flight, parked
+    user Marshal / Unmarshal), or waits for INPUT at the packet buffer (`InputWait`: `Get` on an
+    empty open buffer, `Put` on an occupied slot, `Put` awaiting consumption), or waits for a
+    lock-like resource held by another thread (`LockWait`: `s.write` at `lockW`/`lockWmu`, `s.mu`
+    at `lockMu`, `s.read` at `lockR`, the running flush once at `once`, the lent packet buffer at
+    `tClose`/`hPClose`). -/
+theorem blocked_thread_classification {s : St} (h : Reach s) (t : Tid) :
+    step s t = none ↔
+      (isDone (s.pc t) = true ∨ EnvParked (s.pc t) = true ∨ InputWait s.sh (s.pc t) = true ∨
+       LockWait s.sh (s.pc t) = true) := by
+  rw [blocked_iff (reach_pcOK2 h t)]
+  simp [Bool.or_eq_true, or_assoc]
+
+/-- (A2) No internal deadlock: in a quiescent state with nobody parked in the environment, the
+    write lock, `s.mu`, the flush once are free and the packet buffer is not lent; every thread
+    has returned, or waits for input at the packet buffer, or waits for `s.read` whose owner waits
+    for input in `Get`.  (Lock order mu → write → environment, read → input: no lock is held by a
+    returned or non-existent thread, no cycle.) -/
+theorem no_internal_deadlock {s : St} (h : Reach s) (hq : Quiescent s)
+    (hne : ∀ t, EnvParked (s.pc t) = false) :
+    (s.sh.w = none ∧ s.sh.mu = none ∧ (∀ u, s.sh.once ≠ some (some u)) ∧ s.sh.pheld = false) ∧
+    ∀ t, (∃ r, s.pc t = .done r) ∨ InputWait s.sh (s.pc t) = true ∨
+      (∃ m, s.pc t = .lockR m ∧ ∃ u m', s.sh.r = some u ∧ s.pc u = .get m' ∧ InputWait s.sh (.get m') = true) := by
+  obtain ⟨f1, f2, f3, f4⟩ := quiescent_locks_free h hq hne
+  refine ⟨⟨f2, f3, ?_, f1⟩, ?_⟩
+  · intro u hu; simp [getOnce, hu] at f4
+  · intro t
+    rcases Stream.no_internal_deadlock h hq hne t with h1 | h1 | h1
+    · exact .inl ((isDone_iff _).mp h1)
+    · exact .inr (.inl h1)
+    · exact .inr (.inr h1)
+
+/-- (A3) A terminated stream with nobody parked in the environment cannot be stuck: in such a
+    quiescent state the packet buffer is closed, EVERY call has returned, and the stream is finished. -/
+theorem terminated_quiescent_all_done {s : St} (h : Reach s) (hq : Quiescent s)
+    (hne : ∀ t, EnvParked (s.pc t) = false) (hterm : s.sh.term.isSome = true) :
+    s.sh.perr.isSome = true ∧ (∀ t, ∃ r, s.pc t = .done r) ∧ s.sh.fin = true := by
+  obtain ⟨h1, h2⟩ := Stream.terminated_quiescent_all_done h hq hne hterm
+  have hd : ∀ t, ∃ r, s.pc t = .done r := fun t => (isDone_iff _).mp (h2 t)
+  refine ⟨h1, hd, ?_⟩
+  cases hf : s.sh.fin with
+  | true => rfl
+  | false =>
+    obtain ⟨t, ho⟩ := (reach_sigs h).obligated ⟨hterm, hf⟩
+    obtain ⟨r, hr⟩ := hd t
+    rw [hr] at ho; cases ho
+
+/-- (A4) Cancel unblocks every operation of the stream — provided the environment lets go:
+    once the stream is cancelled (cancel signal set, hence terminated; packet buffer closed with the
+    error), in a quiescent state in which the transport is not holding a write and no user
+    Marshal / Unmarshal is parked, every call has returned (and the stream is finished).
+    `_partial`: the statement is at stream level and needs `inflight = none`; the excluded case is
+    (the hypotheses `cancel` set and `perr` set are not even needed: `term` set suffices);
+    real in hard-cancel mode (`cancel_hang_counterexample` above: a transport write that never
+    completes keeps `s.write`, Close keeps `s.mu` behind it, Cancel waits for `s.mu`). -/
+theorem cancel_unblocks_partial {s : St} (h : Reach s) (_hc : s.sh.cancel.isSome = true)
+    (hterm : s.sh.term.isSome = true) (_hperr : s.sh.perr.isSome = true) (hq : Quiescent s)
+    (hw : s.sh.inflight = none)
+    (hm : ∀ t d sec, s.pc t ≠ .marshal (.msgSend d true) sec)
+    (hu : ∀ t d m, s.pc t = .unmarshal d m → m.park = false) :
+    (∀ t, ∃ r, s.pc t = .done r) ∧ s.sh.fin = true := by
+  have hne : ∀ t, EnvParked (s.pc t) = false := by
+    intro t
+    cases hp : s.pc t <;> simp
+    case writing sec ff =>
+      have := ((reach_locks h).inflight t).mpr (by simp [hp])
+      simp [getInflight, hw] at this
+    case unmarshal d m => exact hu t d m hp
+    case marshal c sec =>
+      cases c <;> simp
+      case msgSend d p =>
+        cases p with
+        | false => rfl
+        | true => exact absurd hp (hm t d sec)
+  exact (terminated_quiescent_all_done h hq hne hterm).2
+
+/-- (A5) A hang needs the environment: if a terminated stream is quiescent and some call has not
+    returned, then some thread is parked in a transport write or in user Marshal / Unmarshal. -/
+theorem hang_needs_transport {s : St} (h : Reach s) (hq : Quiescent s) (hterm : s.sh.term.isSome = true)
+    (hhang : ∃ t, ∀ r, s.pc t ≠ .done r) : ∃ t, EnvParked (s.pc t) = true := by
+  apply Classical.byContradiction
+  intro hno
+  have hne : ∀ t, EnvParked (s.pc t) = false := by
+    intro t
+    cases he : EnvParked (s.pc t) with
+    | false => rfl
+    | true => exact absurd ⟨t, he⟩ hno
+  obtain ⟨t, ht⟩ := hhang
+  obtain ⟨r, hr⟩ := (terminated_quiescent_all_done h hq hne hterm).2.1 t
+  exact ht r hr
+
+/-- non-vacuity: (1) after a `KindMessage` packet on a fresh stream the state is quiescent, nobody
+    is parked in the environment, and the one live thread waits for input (`Put` awaiting
+    consumption) — the hypotheses of `no_internal_deadlock`; (2) after `Cancel` on a fresh stream
+    the state is quiescent, terminated, with nobody parked — the hypotheses of
+    `terminated_quiescent_all_done` / `cancel_unblocks_partial`. -/
+example :
+    (let s := call {} 0 (.handle kindMessage false true [7#8])
+     Reach s ∧ Quiescent s ∧ (∀ t, EnvParked (s.pc t) = false) ∧ InputWait s.sh (s.pc 0) = true) ∧
+    (let s := call {} 0 (.cancel 7)
+     Reach s ∧ Quiescent s ∧ (∀ t, EnvParked (s.pc t) = false) ∧ s.sh.term.isSome = true ∧
+     s.sh.cancel.isSome = true ∧ s.sh.perr.isSome = true ∧ s.sh.inflight = none) := by
+  have other : ∀ (c : Call) (t : Tid), t ≠ 0 → (call {} 0 c).pc t = .done .nil := by
+    intro c t ht; rw [call_pc_other _ _ _ _ ht]
+  refine ⟨⟨reach_call _ (Reach.init {}) ⟨_, rfl⟩, ?_, ?_, by decide⟩,
+          ⟨reach_call _ (Reach.init {}) ⟨_, rfl⟩, ?_, ?_, by decide, by decide, by decide, by decide⟩⟩
+  · intro t
+    by_cases ht : t = 0
+    · subst ht; decide
+    · show step _ t = none; unfold step; rw [other _ t ht]; rfl
+  · intro t
+    by_cases ht : t = 0
+    · subst ht; decide
+    · show EnvParked _ = false; rw [other _ t ht]; rfl
+  · intro t
+    by_cases ht : t = 0
+    · subst ht; decide
+    · show step _ t = none; unfold step; rw [other _ t ht]; rfl
+  · intro t
+    by_cases ht : t = 0
+    · subst ht; decide
+    · show EnvParked _ = false; rw [other _ t ht]; rfl
 
 end Drpc.Props.C04
